@@ -6,6 +6,7 @@ package main
 // goroutine bodies, bound methods handed out as func values).
 
 import (
+	"go/types"
 	"sort"
 	"strings"
 
@@ -31,8 +32,8 @@ var c07Entries = []c07Entry{
 	{"crypto/aescbcaead", "NewAESCBC128SHA256"}, {"crypto/aescbcaead", "NewAESCBC192SHA384"},
 	{"crypto/aescbcaead", "NewAESCBC256SHA384"}, {"crypto/aescbcaead", "NewAESCBC256SHA512"},
 	{"crypto/aescbcaead", "NewAESCBCAEAD"},
-	{"crypto/aescbcaead", "aesCBCAEAD.Open"}, {"crypto/aescbcaead", "aesCBCAEAD.Seal"},
-	{"crypto/aescbcaead", "aesCBCAEAD.NonceSize"}, {"crypto/aescbcaead", "aesCBCAEAD.Overhead"},
+	// (the cipher.AEAD methods of the unexported type(s) these constructors
+	// return are resolved by role: see c07AEADMethods)
 	{"schemes/enc/v1", "Encrypt"}, {"schemes/enc/v1", "Decrypt"}, {"schemes/enc/v1", "Manifest.Validate"},
 	{"schemes/enc/v1", "Cipher.Validate"}, {"schemes/enc/v1", "Cipher.UnmarshalJSON"}, {"schemes/enc/v1", "NewCipherFromID"},
 	{"schemes/enc/v1", "Cipher.ID"}, {"schemes/enc/v1", "Cipher.MarshalJSON"},
@@ -68,13 +69,65 @@ type c07Scope struct {
 	ValueCreated map[*ssa.Function]bool
 }
 
-type c07CallSite struct {
-	Caller *ssa.Function
-	Instr  ssa.CallInstruction
+// c07AEADMethods: Seal/Open/NonceSize/Overhead of every named type of package
+// crypto/aescbcaead that implements crypto/cipher.AEAD — whatever the
+// (unexported) type is called. No such type => UNDECIDED.
+func c07AEADMethods(p *Prog) map[string][]*ssa.Function {
+	out := map[string][]*ssa.Function{}
+	pkg := p.Pkg("crypto/aescbcaead")
+	cp := p.All["crypto/cipher"]
+	if cp == nil {
+		undecided("package crypto/cipher is not loaded")
+	}
+	tn, _ := cp.Types.Scope().Lookup("AEAD").(*types.TypeName)
+	if tn == nil {
+		undecided("crypto/cipher.AEAD no longer resolves")
+	}
+	iface, _ := tn.Type().Underlying().(*types.Interface)
+	sc := pkg.Types.Scope()
+	for _, nm := range sc.Names() {
+		t, ok := sc.Lookup(nm).(*types.TypeName)
+		if !ok || t.IsAlias() {
+			continue
+		}
+		nt, ok := t.Type().(*types.Named)
+		if !ok {
+			continue
+		}
+		if _, isI := nt.Underlying().(*types.Interface); isI {
+			continue
+		}
+		for _, rt := range []types.Type{nt, types.NewPointer(nt)} {
+			if !types.Implements(rt, iface) {
+				continue
+			}
+			for i := 0; i < iface.NumMethods(); i++ {
+				m := iface.Method(i)
+				sel := p.SSA.MethodSets.MethodSet(rt).Lookup(m.Pkg(), m.Name())
+				if sel == nil {
+					continue
+				}
+				if f := p.SSA.MethodValue(sel); f != nil && f.Blocks != nil && p.InModule(f) {
+					out[m.Name()] = append(out[m.Name()], origin(f))
+				}
+			}
+			break
+		}
+	}
+	if len(out["Seal"]) == 0 || len(out["Open"]) == 0 {
+		undecided("no type of crypto/aescbcaead implements cipher.AEAD (entry points Seal/Open unresolved)")
+	}
+	return out
 }
 
 func c07ResolveEntries(p *Prog, list []c07Entry) []*ssa.Function {
 	var out []*ssa.Function
+	if len(list) > 10 { // the main entry table (not the misuse-only one)
+		ms := c07AEADMethods(p)
+		for _, nm := range []string{"NonceSize", "Open", "Overhead", "Seal"} {
+			out = append(out, ms[nm]...)
+		}
+	}
 	for _, e := range list {
 		fn := p.Func(e.Pkg, e.Name) // unresolved => UNDECIDED
 		if fn.Blocks == nil {
@@ -85,7 +138,7 @@ func c07ResolveEntries(p *Prog, list []c07Entry) []*ssa.Function {
 	return out
 }
 
-func c07BuildScope(p *Prog, entries []*ssa.Function) *c07Scope {
+func c07BuildScope(p *Prog, entries []*ssa.Function, fv *c07FV) *c07Scope {
 	sc := &c07Scope{P: p, In: map[*ssa.Function]bool{}, Entry: map[*ssa.Function]bool{}, Why: map[*ssa.Function]string{},
 		Callers: map[*ssa.Function][]c07CallSite{}, ValueCreated: map[*ssa.Function]bool{}}
 	var work []*ssa.Function
@@ -138,11 +191,19 @@ func c07BuildScope(p *Prog, entries []*ssa.Function) *c07Scope {
 			if ci, ok := in.(ssa.CallInstruction); ok {
 				if g := staticCallee(ci); g != nil {
 					for _, t := range through(g, 0) {
-						sc.Callers[t] = append(sc.Callers[t], c07CallSite{fn, ci})
+						sc.Callers[t] = append(sc.Callers[t], c07CallSite{Caller: fn, Instr: ci})
 						add(t, "called by "+name)
 					}
 				}
 				calleeVal = ci.Common().Value
+				// calls through function values / module-declared interfaces whose
+				// targets are visible (dispatch tables, func-typed fields, callbacks,
+				// single-implementation seams)
+				if fv != nil && staticCallee(ci) == nil {
+					for _, t := range fv.DynTargets[ci] {
+						add(t.Fn, "called through a function value or module interface by "+name)
+					}
+				}
 			}
 			for _, op := range in.Operands(nil) {
 				if op == nil || *op == nil {
